@@ -580,3 +580,108 @@ impl Check for Fmt {
         r
     }
 }
+
+
+/* ------------------------------- command-line formatter ------------------------------- */
+
+/// `zydeco fmt FILE` must write exactly what the library formatter returns, and `zydeco fmt --check
+/// FILE` must succeed exactly on fixed points.
+pub struct FmtCli {
+    sources: Vec<String>,
+}
+impl FmtCli {
+    pub fn new(tier: Tier) -> Self {
+        let mut sources: Vec<String> = crate::corpus::MINIS.iter().map(|s| s.to_string()).chain(FMT_MINIS.iter().map(|s| s.to_string())).filter(|t| format_parses(t))
+            // the two minis with a 2^63-1 indent / width abort the formatter (allocation failure: C12's known finding)
+            .filter(|t| !t.contains("9223372036854775807"))
+            .collect();
+        let stride = if tier == Tier::Thorough { 400 } else { 2400 };
+        for pr in crate::uni::universe(tier).iter().step_by(stride) {
+            sources.push(crate::print::program(&pr.body, &pr.root, &crate::print::Cfg::default()).0);
+        }
+        FmtCli { sources }
+    }
+}
+impl Check for FmtCli {
+    fn property(&self) -> &'static str {
+        "C14"
+    }
+    fn name(&self) -> String {
+        "c14-cli".into()
+    }
+    fn len(&self) -> usize {
+        self.sources.len()
+    }
+    fn describe(&self, i: usize) -> String {
+        format!("zydeco fmt / fmt --check on: {}", self.sources[i])
+    }
+    fn rule(&self) -> String {
+        format!("{} sources (mini corpus, formatter minis, a stride of the generated universe), each written to a file and handed to the real zydeco binary: `fmt --check` on the original exits 0 iff the library formatter returns the text unchanged; `fmt` rewrites the file to exactly the library formatter's output; `fmt --check` on the rewritten file exits 0 and `fmt` leaves it byte-identical; non-trivial = sources the formatter changes", self.sources.len())
+    }
+    fn timeout(&self) -> std::time::Duration {
+        std::time::Duration::from_secs(120)
+    }
+    fn run(&mut self, i: usize) -> CaseResult {
+        use std::process::{Command, Stdio};
+        let src = &self.sources[i];
+        let mut r = CaseResult::ok("source").key(hash64(src));
+        let lib = match guarded(|| format_source(src)) {
+            | Ok(Ok(o)) => o,
+            // panics / unparseable sources are C12's business
+            | _ => return CaseResult::ok("library-formatter-fails"),
+        };
+        r = r.nontrivial(lib != *src);
+        let scratch = Scratch::new("c14cli");
+        let path = scratch.write("main.zydeco", src);
+        let bin = verif_root().join("target/debug/zydeco");
+        let run = |args: &[&str]| -> Option<i32> {
+            let mut c = Command::new(&bin);
+            c.args(args).arg(&path).stdin(Stdio::null()).stdout(Stdio::null()).stderr(Stdio::null()).env("RUST_BACKTRACE", "0");
+            let mut child = c.spawn().ok()?;
+            let t = std::time::Instant::now();
+            loop {
+                match child.try_wait() {
+                    | Ok(Some(st)) => return st.code().or(Some(-1)),
+                    | Ok(None) => {
+                        if t.elapsed().as_secs() > 60 {
+                            let _ = child.kill();
+                            let _ = child.wait();
+                            return None;
+                        }
+                        std::thread::sleep(std::time::Duration::from_millis(2));
+                    }
+                    | Err(_) => return None,
+                }
+            }
+        };
+        let detail = |what: String| format!("{what}\nsource: {src}\nlibrary output: {lib}");
+        // 1. --check on the original
+        match run(&["fmt", "--check"]) {
+            | None => return r.violation("MACHINERY: zydeco fmt --check did not finish".to_string(), detail(String::new())),
+            | Some(code) => {
+                if (code == 0) != (lib == *src) {
+                    r = r.violation("`fmt --check` disagrees with the library formatter about whether a file is formatted".to_string(), detail(format!("exit {code}, library says {}", if lib == *src { "unchanged" } else { "changed" })));
+                }
+            }
+        }
+        // 2. fmt rewrites to the library output
+        match run(&["fmt"]) {
+            | None => return r.violation("MACHINERY: zydeco fmt did not finish".to_string(), detail(String::new())),
+            | Some(code) => {
+                let now = std::fs::read_to_string(&path).unwrap_or_default();
+                if code != 0 || now != lib {
+                    r = r.violation("`zydeco fmt` writes something else than the library formatter returns".to_string(), detail(format!("exit {code}; file now: {now}")));
+                    return r;
+                }
+            }
+        }
+        // 3. the rewritten file is a fixed point for the tool iff it is one for the library
+        let lib2 = guarded(|| format_source(&lib)).ok().and_then(|x| x.ok());
+        if let (Some(code), Some(lib2)) = (run(&["fmt", "--check"]), lib2) {
+            if (code == 0) != (lib2 == lib) {
+                r = r.violation("`fmt --check` right after `fmt` disagrees with the library formatter".to_string(), detail(format!("exit {code}")));
+            }
+        }
+        r
+    }
+}
